@@ -18,8 +18,21 @@ def random_sym(rng, n, density):
     return X
 
 
-def spd_block(rng, n, density, cond_exp, clustered):
+def spd_block(rng, n, density, cond_exp, clustered, chain=False):
     """Symmetric positive definite n x n block."""
+    if chain and n >= 4:
+        # spring chain (finite-difference / Laplacian type): interior columns (-k, 2k, -k) sum to exactly zero,
+        # every third node is grounded so that the block is positive definite
+        k0 = float(2 ** int(rng.integers(-3, 8)))
+        K = np.zeros((n, n))
+        for i in range(n):
+            K[i, i] = 2 * k0
+            if i + 1 < n:
+                K[i, i + 1] = K[i + 1, i] = -k0
+        K[0, 0] = K[n - 1, n - 1] = k0          # free ends: column sum zero there too
+        for i in range(1, n, 3):
+            K[i, i] += k0 * float(2 ** int(rng.integers(-2, 3)))
+        return K
     if clustered:
         Q, _ = np.linalg.qr(rng.standard_normal((n, n)))
         nclu = max(1, n // 3)
@@ -49,7 +62,7 @@ def make_pair_lb(p):
     null = np.sort(rng.choice(n, nnull, replace=False)) if nnull else np.array([], dtype=int)
     active = np.setdiff1d(np.arange(n), null)
     na = len(active)
-    Ka = spd_block(rng, na, p['density'], p['cond_exp'], p.get('clustered', False))
+    Ka = spd_block(rng, na, p['density'], p['cond_exp'], p.get('clustered', False), p.get('chain', False))
     kind = p['kg']
     if kind == 'nsd-full':
         B = random_sym(rng, na, p['density'])
@@ -93,7 +106,7 @@ def make_pair_freq(p):
     null = np.sort(rng.choice(n, nnull, replace=False)) if nnull else np.array([], dtype=int)
     active = np.setdiff1d(np.arange(n), null)
     na = len(active)
-    Ka = spd_block(rng, na, p['density'], p['cond_exp'], p.get('clustered', False))
+    Ka = spd_block(rng, na, p['density'], p['cond_exp'], p.get('clustered', False), p.get('chain', False))
     kind = p.get('mass', 'spd')
     if kind == 'spd':
         Ma = spd_block(rng, na, p['density'], 1.0, False)
